@@ -12,6 +12,8 @@ size_t BS_GRID_NEXT;              /* ids >= BS_GRID_NEXT are not allocated yet *
  * BS_GEQ_W[i][j] is a witness position of a difference.  Definitional: for every heap there is exactly
  * one such relation; harnesses assume the axioms below, they are not facts about the library.           */
 _Bool BS_GEQ[BS_NG][BS_NG];
+/* ghost flag: BS_SORTED[id] means "heap vector id is strictly increasing" (spec.h) */
+_Bool BS_SORTED[BS_NG];
 size_t BS_GEQ_W[BS_NG][BS_NG];
 
 /* std::vector<T>::operator== on two grid vectors */
@@ -24,6 +26,41 @@ static inline size_t bs_spid(struct sp_vec_T p)
 {
   __CPROVER_assert(p.id < BS_NG, "[C09] shared_ptr dereferenced only when non-null");
   return p.id;
+}
+
+/* std::lower_bound on a range of a strictly increasing grid vector.  Contract from the C++ standard
+ * ([lower.bound]: on a range partitioned with respect to e < x the result is the partition point: every
+ * element before it is < x, no element from it on is) combined with strict monotonicity of the range
+ * (elements after the partition point are > x).  Stated quantifier-free at result-1, result and at the
+ * shared ghost positions gq, gj, gj+1 (spec.h) so that callers need no quantifier instantiation; lemma
+ * L_lower_bound_shim checks these derived clauses against the primitive statement.  Assumed, not verified. */
+extern size_t gq, gj;
+#define BS_LB_D(i) (BS_GRIDMEM[first.gid].d[i])
+#define BS_LB_R (__CPROVER_return_value.pos)
+#define BS_LB_AT(q) (((first.pos <= (q) && (q) < BS_LB_R) ==> BS_LB_D(q) < x) && \
+                     ((BS_LB_R <= (q) && (q) < last.pos) ==> !(BS_LB_D(q) < x)) && \
+                     ((BS_LB_R < (q) && (q) < last.pos) ==> x < BS_LB_D(q)))
+struct it_vec_T bs_lower_bound(struct it_vec_T first, struct it_vec_T last, T x)
+  __CPROVER_requires(first.gid == last.gid && first.gid < BS_NG && first.pos <= last.pos &&
+                     last.pos <= BS_GRIDMEM[first.gid].n && last.pos <= BS_CAP && BS_SORTED[first.gid])
+  __CPROVER_ensures(__CPROVER_return_value.gid == first.gid && first.pos <= BS_LB_R && BS_LB_R <= last.pos)
+  __CPROVER_ensures(BS_LB_R > first.pos ==> BS_LB_D(BS_LB_R - 1) < x)
+  __CPROVER_ensures(BS_LB_R < last.pos ==> !(BS_LB_D(BS_LB_R) < x))
+  __CPROVER_ensures(BS_LB_AT(gq))
+  __CPROVER_ensures(BS_LB_AT(gj))
+  __CPROVER_ensures(gj + 1 == 0 || BS_LB_AT(gj + 1))
+  __CPROVER_assigns()
+;
+
+/* std::make_shared<const std::vector<T>>(v): a fresh slot of the ghost heap */
+static inline struct sp_vec_T bs_make_shared_vec(struct vec_T v)
+{
+  struct sp_vec_T p;
+  BS_CAPACITY(BS_GRID_NEXT < BS_NG);
+  p.id = BS_GRID_NEXT;
+  BS_GRIDMEM[p.id] = v;
+  BS_GRID_NEXT = BS_GRID_NEXT + 1;
+  return p;
 }
 
 /* T from run-time integers: a total case table on -64..64 (cbmc has no bit-vector -> rational cast) */
